@@ -3,6 +3,7 @@
 #include "canary.h"
 #include "K_pdm_get_index.c"
 #include "K_pds_get_offset.c"
+#include "K_fss_reorder.c"
 
 static void ghosts(void)
 {
@@ -19,6 +20,13 @@ void h_K_find_int(void)
 void h_K_pdm_get_index(void) { struct PD* s; struct Bin* b; ghosts(); K_pdm_get_index(s, b); }
 void h_K_pds_get_offset(void) { struct PD* s; struct Bin* b; ghosts(); K_pds_get_offset(s, b); }
 
+void h_K_fss_reorder(void)
+{
+  g_r = nondet_int(); g_zero = nondet_int(); g_rloc = nondet_int(); g_fss_min_seg = nondet_int(); g_fss_max_seg = nondet_int();
+  g_in_min_ring_difference = nondet_int(); g_in_max_ring_difference = nondet_int(); g_in_num_rings_per_segment = nondet_int();
+  g_ow_min_ring_diff = 0; g_ow_max_ring_diff = 0; g_ow_num_rings_per_segment = 0;
+  K_fss_reorder(nondet_int());
+}
 static void mk_pd(struct PD* s)
 {
   s->min_seg = nondet_int(); s->max_seg = nondet_int();
